@@ -381,8 +381,21 @@ def run_one(seed, tape, opts):
     def all_sent():
         return all(st[x]["sent"] >= len(recs[x]) for x in ("s2r", "r2s"))
 
+    # an application that keeps the pipe open between bursts: once per run
+    # (a third of the runs) 61..600 simulated seconds pass on the established
+    # connection; no deadline may end an established Transit connection
+    idle = [61.0 + tape.choose(540, "idle_s")
+            if tape.choose(3, "idle") == 0 else None]
+
     def app_events():
         evs = []
+        if idle[0] is not None:
+            def pause():
+                dt, idle[0] = idle[0], None
+                sim.ev("idle", dt)
+                sim.note("probe.idle_%s" % ("1-2min" if dt < 120 else "2-10min"))
+                sim.reactor.rightNow += dt
+            evs.append(("idle", pause))
         if orderly[0] and all_sent() and cs.transport.connected and \
                 not cs.transport.disconnecting and \
                 len(delivered("r2s")) + len(cs._inbound_records) >= \
@@ -502,7 +515,8 @@ def run_one(seed, tape, opts):
             if mitm[d].k < 0 and len(delivered(d)) < len(recs[d]):
                 return False
         return not any(len(e.inflight) for e in link.ends)
-    sim.run(20000, until=all_done, max_time=100)
+    sim.run(20000, until=all_done, max_time=800)
+    idle[0] = None
     sim.chaos = False
     sim.run(3000, max_time=30)
     oracle()
